@@ -7,12 +7,6 @@ From LibcoapV Require Import Base.Tactics Base.Bytes Base.BytesProofs Wire.OptCo
 Local Open Scope Z_scope.
 
 (* ---- spans ---- *)
-Fixpoint uri_after (stop : Z -> bool) (s : bytes) : bytes :=
-  match s with
-  | [] => []
-  | c :: r => if stop c then s else uri_after stop r
-  end.
-
 Lemma uri_upto_after stop s : uri_upto stop s ++ uri_after stop s = s.
 Proof.
   induction s as [|c r IH]; [reflexivity|]. cbn [uri_upto uri_after].
